@@ -87,6 +87,12 @@ Theorem C05_model_passes_oracle :
 Proof. exact oracle_all. Qed.
 Print Assumptions C05_model_passes_oracle.
 
+(* the convenience readers of a code (CoapResponse::get_status, CoapRequest::get_method): a named value exactly for the
+   registered response / request codes; every other byte and every Reserved(b) / UnKnown form reads as unknown *)
+Theorem C05_code_readers : forall x, x < 768 -> verdict50 [11; x] (run50 [11; x]) = true.
+Proof. exact oracle_code_readers. Qed.
+Print Assumptions C05_code_readers.
+
 Example C05_example :
   option_of_u16 258 = O_NoResponse /\ content_format_of 11542 = Some CF_ApplicationVndOmaLwm2mTlv /\
   class_of_byte 136 = Response RequestEntityIncomplete /\ fmt_code 136 = [52; 46; 48; 56].
